@@ -139,6 +139,10 @@ def directed():
     out.append(("dir_b_drops_exits_u_first", [2], HEAD + ["T 1 start", "T 2 start", "L 2 5 4 20"] + burst + ["T 1 exit"] + ["P"] * 8 + DRAIN + ["X"]))
     out.append(("dir_drop_during_report_u_first", [2], HEAD + ["T 1 start", "T 2 start", "L 2 5 4 20", "L 1 0 4 300", "L 1 0 4 300", "L 1 0 4 300",
                 "P", "P", "P", "P @8.1=L_1_0_4_400,L_1_0_4_400,L_2_5_4_20", "P", "P", "K 1000", "P", "P"] + DRAIN + ["X"]))
+    # the F24 window in a mixed process: cache = [unbounded 2, bounded 1, bounded 3]; while the notifier reports thread 3's drops
+    # (site 8) thread 1 drops a statement and exits: its context must be kept until that count was reported
+    out.append(("dir_f24_window_u_first", [2], HEAD + ["T 1 start", "T 2 start", "T 3 start", "L 2 5 4 20", "L 1 0 4 20", "L 3 0 4 300", "L 3 0 4 300",
+                "L 3 0 4 300", "P", "P", "P", "P @8.1=L_1_0_4_5000,T_1_exit", "P", "P", "P"] + DRAIN + ["X"]))
     # a new unbounded thread registers while the notifier runs (site 8) and inside the read pass (site 2)
     out.append(("dir_u_registers_inside_poll", [3], HEAD + ["T 1 start", "T 3 start"] + burst +
                 ["P @2.1=L_3_5_4_20", "P", "P", "P @8.1=L_3_5_4_20,L_1_0_4_400", "P", "P"] + DRAIN + ["X"]))
